@@ -107,7 +107,7 @@ def validate(ctx, traces, label):
             json.dump(traces, f)
         cfg = tlc.cfg_text(invariants=["Conforms", "RepIsMergedCount", "NoOverrun", "AttemptsAccounted", "Finished"])
         r = tlc.run(MODULE, cfg, env={"TRACE_FILE": path}, workers=4, timeout=1800)
-        ctx.account(r, MODULE, label)
+        ctx.account(r, MODULE, label, expect_violation="any")
         if r.violated:
             import re
             m = re.search(r"mismatch = <<(\d+), (\d+), \"([^\"]*)\">>", r.trace_text)
